@@ -166,7 +166,13 @@ def scenarios(r, n):
                 es["tol_abs"] = r.choice([None, 0.5, 2])
             if r.random() < 0.5:
                 es["tol_rel"] = r.choice([None, 50, 200])
-            calls.append(dict(n_iter=n_iter, memory="off", early_stopping=es, verbosity=False))
+            c = dict(n_iter=n_iter, memory="off", early_stopping=es, verbosity=False)
+            k = r.random()
+            if k < 0.1:      # combined criteria (correspondence only)
+                c["max_score"] = r.choice([1.5, 1e9])
+            elif k < 0.18:
+                c["max_time"] = r.choice([1, 1000])
+            calls.append(c)
             script += [r.choice([-1, 0, 0.5, 1, 2, 4]) for _ in range(n_iter)]
         spec["calls"] = calls
         spec["script"] = script + [0.0] * 4
